@@ -5,7 +5,8 @@
    in known_findings.json); the reader is Spec/WireRead.v (written from the
    RFCs, not from the Rust parser). *)
 From Coq Require Import List NArith Bool.
-From RB Require Import Base.Val Model.Caps Model.WireEnc Spec.WireRead Spec.WireEncSpec Proofs.WireEnc.
+From RB Require Import Base.Val Model.Caps Model.WireEnc Spec.WireRead Spec.WireEncSpec Spec.WireReadFam Spec.WireFamSpec
+     Proofs.WireEnc Proofs.WireEncFam Proofs.WireEncFix Proofs.WireEncSound.
 Import ListNotations.
 Open Scope N_scope.
 
@@ -199,7 +200,9 @@ Theorem as4_path_roundtrip :
       segs_of b = Ok segs /\
       (existsb seg_wide segs = false ->
          w = [mk_bin 2 (flat_map enc_seg2 segs)] /\ map seg_down segs = segs) /\
-      (existsb seg_wide segs = true ->
+      (existsb seg_wide segs = true -> filter not_confed segs = [] ->
+         w = [mk_bin 2 (flat_map enc_seg2 segs)]) /\
+      (existsb seg_wide segs = true -> filter not_confed segs <> [] ->
          w = [mk_bin 2 (flat_map enc_seg2 segs); mk_bin 17 (flat_map enc_seg4 (filter not_confed segs))] /\
          as4_reconcile (map seg_down segs) (filter not_confed segs) = filter not_confed segs /\
          (forallb not_confed segs = true -> as4_reconcile (map seg_down segs) (filter not_confed segs) = segs)).
@@ -211,7 +214,9 @@ Check as4_path_roundtrip :
       segs_of b = Ok segs /\
       (existsb seg_wide segs = false ->
          w = [mk_bin 2 (flat_map enc_seg2 segs)] /\ map seg_down segs = segs) /\
-      (existsb seg_wide segs = true ->
+      (existsb seg_wide segs = true -> filter not_confed segs = [] ->
+         w = [mk_bin 2 (flat_map enc_seg2 segs)]) /\
+      (existsb seg_wide segs = true -> filter not_confed segs <> [] ->
          w = [mk_bin 2 (flat_map enc_seg2 segs); mk_bin 17 (flat_map enc_seg4 (filter not_confed segs))] /\
          as4_reconcile (map seg_down segs) (filter not_confed segs) = filter not_confed segs /\
          (forallb not_confed segs = true -> as4_reconcile (map seg_down segs) (filter not_confed segs) = segs)).
@@ -278,3 +283,91 @@ Check decode_encode_routes_labeled :
       concat chunks = es /\
       Forall2 (reach_frame_labeled_ok c f vpn nh ws (es <> [])) frames chunks.
 Print Assumptions decode_encode_routes_labeled.
+
+(* (14) Flowspec (IPv4 / IPv6, plain / VPN), Route Target Constraint, EVPN route types 1-5,
+   SR Policy, MUP route types 1-4 and BGP-LS (NLRI types 1-4 and 6 at TLV level, other types
+   opaque), with the NLRI VALUE universally quantified (rule components and operator lists,
+   route targets, RD / ESI / tags / MAC / IP / labels, ...): the frames of a Reach split the
+   entries into consecutive chunks and from every frame the RFC reader of the family recovers the
+   attributes, the next hop and exactly the entries of the chunk -- the value itself (a Flowspec
+   prefix component keeps its significant octets).  This covers the length prefix rule of RFC 8955
+   4.1 (one octet below 240, two octets 0xfnnn from 240 to 4095) and the operator value widths.
+   (One reader clause is not the RFC's: an IPv6 Flowspec prefix component with a non-zero offset
+   is read as the code writes it, ceil(length / 8) octets from bit 0, where RFC 8956 3.1 has the
+   length - offset bits after the offset; the python oracle judges by the RFC and reports the
+   difference on every run as the open finding C04-fs6-prefix-offset.) *)
+Theorem decode_encode_routes_structured :
+  forall (p : profile) (c : codec) (f : N) (k : skind) (nh : option (list N)) (attrs : list attr)
+         (es : list pnlri) (frames : list (list N)),
+    encode_to p c (MReach f nh attrs es) = Ok frames ->
+    Forall attr_wf attrs -> code_not 3 attrs -> code_not 14 attrs -> fam_ok f ->
+    match nh with Some b => blen b < 248 | None => True end ->
+    Forall (structured k) es ->
+    exists ws chunks,
+      wire_attrs (two_byte c) attrs = Ok ws /\
+      concat chunks = es /\
+      Forall2 (reach_frame_struct_ok c f k nh ws (es <> [])) frames chunks.
+Proof. exact C04_decode_encode_routes_structured. Qed.
+Check decode_encode_routes_structured :
+  forall (p : profile) (c : codec) (f : N) (k : skind) (nh : option (list N)) (attrs : list attr)
+         (es : list pnlri) (frames : list (list N)),
+    encode_to p c (MReach f nh attrs es) = Ok frames ->
+    Forall attr_wf attrs -> code_not 3 attrs -> code_not 14 attrs -> fam_ok f ->
+    match nh with Some b => blen b < 248 | None => True end ->
+    Forall (structured k) es ->
+    exists ws chunks,
+      wire_attrs (two_byte c) attrs = Ok ws /\
+      concat chunks = es /\
+      Forall2 (reach_frame_struct_ok c f k nh ws (es <> [])) frames chunks.
+Print Assumptions decode_encode_routes_structured.
+
+(* (15) ... and their withdrawals. *)
+Theorem split_preserves_multiset_structured :
+  forall (p : profile) (c : codec) (f : N) (k : skind) (es : list pnlri) (frames : list (list N)),
+    encode_to p c (MUnreach f es) = Ok frames ->
+    fam_ok f -> Forall (structured k) es ->
+    exists chunks, concat chunks = es /\ Forall2 (unreach_frame_struct_ok c f k) frames chunks.
+Proof. exact C04_split_preserves_multiset_structured. Qed.
+Check split_preserves_multiset_structured :
+  forall (p : profile) (c : codec) (f : N) (k : skind) (es : list pnlri) (frames : list (list N)),
+    encode_to p c (MUnreach f es) = Ok frames ->
+    fam_ok f -> Forall (structured k) es ->
+    exists chunks, concat chunks = es /\ Forall2 (unreach_frame_struct_ok c f k) frames chunks.
+Print Assumptions split_preserves_multiset_structured.
+
+(* (16) Fixed point: the value the peer reads from what the encoder wrote for a representable
+   entry is itself representable, canonical (reading it again changes nothing), is written as
+   the very same octets, and those octets read as that value -- decode (encode y) = y for every y
+   obtained by decoding an encoding. *)
+Theorem structured_fixpoint :
+  forall (p : profile) (k : skind) (pid : N) (n : nlri),
+    structured k (pid, n) ->
+    structured k (pid, canon_struct n) /\
+    canon_struct (canon_struct n) = canon_struct n /\
+    enc_nlri p (canon_struct n) = enc_nlri p n /\
+    forall enc rest, enc_nlri p n = Ok enc -> read_struct k (enc ++ rest) = Some (canon_struct n, rest).
+Proof. exact C04_structured_fixpoint. Qed.
+Check structured_fixpoint :
+  forall (p : profile) (k : skind) (pid : N) (n : nlri),
+    structured k (pid, n) ->
+    structured k (pid, canon_struct n) /\
+    canon_struct (canon_struct n) = canon_struct n /\
+    enc_nlri p (canon_struct n) = enc_nlri p n /\
+    forall enc rest, enc_nlri p n = Ok enc -> read_struct k (enc ++ rest) = Some (canon_struct n, rest).
+Print Assumptions structured_fixpoint.
+
+(* (17) decode (encode (decode b)) = decode b for the NLRI of the structured families: whatever
+   octet string [b] the RFC reader of the family accepts, the value [v] it returns is encoded by
+   the implementation's encoder (no panic, either build profile) and that encoding reads as [v]
+   again.  (The reader is the structural one of Spec/WireReadFam.v; the Rust decoder is
+   property C03's and is tied to this clause by the harness check on every run.) *)
+Theorem decode_encode_decode_fixpoint_nlri :
+  forall (p : profile) (k : skind) (b : list N) (v : nlri) (rest : list N),
+    bytes_ok b -> read_struct k b = Some (v, rest) ->
+    exists enc, enc_nlri p v = Ok enc /\ forall rest', read_struct k (enc ++ rest') = Some (v, rest').
+Proof. exact C04_decode_encode_decode_fixpoint. Qed.
+Check decode_encode_decode_fixpoint_nlri :
+  forall (p : profile) (k : skind) (b : list N) (v : nlri) (rest : list N),
+    bytes_ok b -> read_struct k b = Some (v, rest) ->
+    exists enc, enc_nlri p v = Ok enc /\ forall rest', read_struct k (enc ++ rest') = Some (v, rest').
+Print Assumptions decode_encode_decode_fixpoint_nlri.
